@@ -67,11 +67,15 @@ def gen_spec(rng, cls):
     if cls == "tempo_on_measure_lines" or cls in ("selectable_false", "leading_empty_measures", "big_lcm", "unsorted", "odd_mix", "write_edit_write"):
         tb = sorted({F(0)} | {F(4 * rng.randint(1, max(1, n_beats // 4))) for _ in range(rng.choice([0, 1, 2, 4]))})
     elif cls == "tempo_off_measure":
-        tb = sorted({F(0)} | {F(rng.randint(1, n_beats * 4), rng.choice([1, 2, 3, 4, 6, 8])) for _ in range(rng.choice([1, 2, 4]))})
+        # also positions the snap grid has but a 1/48-beat row grid has not (1/5, 1/7, 1/9, 1/32, 1/64, 1/96)
+        tb = sorted({F(0)} | {F(rng.randint(1, n_beats * 4), rng.choice([1, 2, 3, 4, 6, 8, 5, 7, 9, 32, 64, 96])) for _ in range(rng.choice([1, 2, 4]))})
     else:
         tb = [F(0)]
     vals = [120.0, 150.0, 90.0, 180.5, 173.25, 60.0, 200.0, 139.86013986013987, 240.0]
     tempo = [[fs(b), rng.choice(vals)] for b in tb]
+    if cls == "tempo_off_measure" and rng.random() < 0.4:
+        for i, t in enumerate(tempo):
+            t[1] = [60.0, 480.0, 45.0, 360.0][i % 4]   # large tempo ratios: an error in a change's position is magnified afterwards
     offset = rng.choice([0.0, 375.0, -1250.0, 12.5, 1.0])
     divs = [1, 2, 3, 4, 6, 8, 12, 16] if cls != "big_lcm" else [5, 7, 9, 64, 96, 32]
     if cls == "odd_mix":
